@@ -50,9 +50,11 @@ for _i, _o in enumerate(OPS):
     _cells[f'D{_i + 1}'] = f'=A1{XL[_o]}2.5'          # literal on the right
     _cells[f'E{_i + 1}'] = f'=A2{XL[_o]}B1'          # A2 is blank in the workbook
     _cells[f'F{_i + 1}'] = f'=A1{XL[_o]}""'           # empty text literal
+    _cells[f'G{_i + 1}'] = f'=A3{XL[_o]}B3'          # both operands hold *text* in the workbook (overridden with numbers)
+    _cells[f'H{_i + 1}'] = f'=A3{XL[_o]}"kiwi"'       # text cell against a text literal
 TRANSLATE_ERRORS = []
 try:
-    KF = build.load_class(build.translate_formulas(_cells, {'A1': 1, 'B1': 2}), '_kf')
+    KF = build.load_class(build.translate_formulas(_cells, {'A1': 1, 'B1': 2, 'A3': 'pear', 'B3': 'apple'}), '_kf')
 except Exception as _e:
     KF = None
     TRANSLATE_ERRORS.append(('=A1<op>B1 family', f'{type(_e).__name__}: {_e}'))
@@ -152,6 +154,15 @@ def run(report, tier, seed):
     ''', encodes=fenc, requires='KF is not None')
     s.add('f_cells_float', 'a: float, b: float, op: int', '0 <= op < 6 and fin(a) and fin(b)', '''
         return ev('C' + str(op + 1), A1=a, B1=b) == pyop(op, a, b)
+    ''', encodes=fenc, requires='KF is not None')
+    s.add('f_textcells_overridden_int', 'a: int, b: int, op: int', '0 <= op < 6', '''
+        return ev('G' + str(op + 1), A3=a, B3=b) == pyop(op, a, b)
+    ''', encodes=fenc, requires='KF is not None')
+    s.add('f_textcells_overridden_float', 'a: float, b: float, op: int', '0 <= op < 6 and fin(a) and fin(b)', '''
+        return ev('G' + str(op + 1), A3=a, B3=b) == pyop(op, a, b)
+    ''', encodes=fenc, requires='KF is not None')
+    s.add('f_textcell_vs_textliteral_overridden', 'a: int, op: int', '0 <= op < 6', '''
+        return ev('G' + str(op + 1)) == pyop(op, 'pear', 'apple') and ev('H' + str(op + 1)) == pyop(op, 'pear', 'kiwi')
     ''', encodes=fenc, requires='KF is not None')
     s.add('f_literal_right', 'a: float, op: int', '0 <= op < 6 and fin(a)', '''
         return ev('D' + str(op + 1), A1=a) == pyop(op, a, 2.5)
